@@ -167,6 +167,11 @@ class SimulatorImaging:
 
         image = Array2D(values=image, mask=mask)
 
+        # the simulator has already normalised the PSF if it was asked to: the dataset carries the PSF the data were made with
         return Imaging(
-            data=image, psf=self.psf, noise_map=noise_map, check_noise_map=False
+            data=image,
+            psf=self.psf,
+            noise_map=noise_map,
+            check_noise_map=False,
+            use_normalized_psf=False,
         )
